@@ -19,8 +19,10 @@ FastCp(w) == CpTab[w]
 \* documents (text): 1 plain, 2 with DOCTYPE (for id()), 3 with a namespace declaration
 Docs == << Cp("<") \o Cp("a") \o <<32>> \o Cp("x") \o <<61, 34, 49, 34, 62>> \o Cp("<") \o Cp("b") \o <<47, 62>> \o Cp("<") \o Cp("b") \o <<62, 49, 60, 47>> \o Cp("b") \o <<62, 60, 47>> \o Cp("a") \o <<62>>,
            <<60,33,68,79,67,84,89,80,69,32,97,32,91,60,33,65,84,84,76,73,83,84,32,97,32,105,32,73,68,32,35,73,77,80,76,73,69,68,62,93,62,60,97,32,105,61,34,120,34,47,62>>,
-           <<60,97,32,120,109,108,110,115,58,112,61,34,117,34,62,60,112,58,98,32,112,58,120,61,34,49,34,47,62,60,47,97,62>> >>
+           <<60,97,32,120,109,108,110,115,58,112,61,34,117,34,62,60,112,58,98,32,112,58,120,61,34,49,34,47,62,60,47,97,62>>,
+           <<60,114,32,120,109,108,58,108,97,110,103,61,34,26085,26412,35486,34,62,60,112,47,62,60,47,114,62>> >>
 \* 1: <a x="1"><b/><b>1</b></a>   2: <!DOCTYPE a [<!ATTLIST a i ID #IMPLIED>]><a i="x"/>   3: <a xmlns:p="u"><p:b p:x="1"/></a>
+\* 4: <r xml:lang="(three CJK characters)"><p/></r>   - a language tag of multi-byte characters
 
 \* named constructs: <<text as a TLA+ string key, allow>>; the texts are given as code points below
 S(str) == str
@@ -61,6 +63,9 @@ Named ==
      [x |-> <<47,47,98,32,43,32,47,47,64,120>>,            allow |-> "any",          d |-> 1],   \* //b + //@x
      [x |-> <<108,97,110,103,40,39,101,110,39,41>>,        allow |-> "any",          d |-> 1],   \* lang('en')
      [x |-> <<47,47,116,101,120,116,40,41,91,108,97,110,103,40,39,101,110,39,41,93>>, allow |-> "any", d |-> 1],  \* //text()[lang('en')]
+     [x |-> <<47,47,112,91,108,97,110,103,40,39,101,110,39,41,93>>, allow |-> "any", d |-> 4],   \* //p[lang('en')]   (argument shorter, in bytes, than one character of the tag)
+     [x |-> <<47,47,112,91,108,97,110,103,40,39,97,39,41,93>>,      allow |-> "any", d |-> 4],   \* //p[lang('a')]
+     [x |-> <<47,47,112,91,108,97,110,103,40,39,26085,39,41,93>>,   allow |-> "any", d |-> 4],   \* //p[lang('<first character of the tag>')]
      [x |-> <<47,47,113,58,98>>,                           allow |-> "any",          d |-> 3],   \* //q:b  (unbound prefix)
      [x |-> <<113,58,102,40,41>>,                          allow |-> "any",          d |-> 1],   \* q:f()
      [x |-> <<110,97,109,101,40,47,47,110,97,109,101,115,112,97,99,101,58,58,42,41>>, allow |-> "any", d |-> 3],  \* name(//namespace::*)
@@ -74,7 +79,7 @@ Named ==
 vars == cvars
 \* nesting families (recursion depth grows with n) get every deep size; the flat ones (linear work per
 \* repetition, about 0.1 ms each) only sizes whose linear cost stays far below the 5 s limit of a call
-NestingFamilies == {"parens", "deeppred", "minus", "args", "filters", "parenpath"}
+NestingFamilies == {"parens", "deeppred", "selfpred", "minus", "args", "filters", "parenpath"}
 FlatFamilies == {"preds", "steps", "ors", "unions"}
 Inputs == { [fam |-> f, n |-> n, allow |-> "any"] : f \in FamilyNames, n \in Sizes }
           \cup { [fam |-> f, n |-> n, allow |-> "any"] : f \in NestingFamilies, n \in DeepSizes }
